@@ -8,7 +8,7 @@ A = "crates/core/src/crypto/aespoly1305.rs"
 R_ERR = Rw("", "verr()", count=None, kind="err", why="RusticError construction (kind/message/context dropped)")
 
 UNITS = [
-    Unit(name="Key", file=A, kind="const", anchor="pub struct Key(AeadKey);"),
+    Unit(name="Key", file=A, kind="const", anchor="pub struct Key(AeadKey);", attrs="#[derive(Clone, Copy)]"),
     Unit(name="key_encrypt_data", file=A, anchor="fn encrypt_data(&self, data: &[u8]) -> RusticResult<Vec<u8>>", within="impl CryptoKey for Key {", ret_name="r",
          wrap_open="impl Key {", wrap_close="}",
          functions=["<crypto::aespoly1305::Key as CryptoKey>::encrypt_data"],
@@ -168,6 +168,28 @@ UNITS += [
             assert(data@.subrange(16, data@.len() as int) =~= data@.subrange(16, 16 + d.len() as int) + data@.subrange(16 + d.len() as int, data@.len() as int));
         }""")],
          ),
+]
+
+KC = "crates/core/src/commands/key.rs"
+UNITS += [
+    Unit(name="key_new", file=A, anchor="pub fn new() -> Self", within="impl Key {", ret_name="r",
+         wrap_open="impl Key {", wrap_close="}",
+         functions=["crypto::aespoly1305::Key::new"],
+         rewrites=[Rw("AeadKey::default()", "vaeadkey_default()", why="GenericArray::default (zero bytes)"),
+                   Rw("rng().fill_bytes(&mut key);", "vrng_fill_key(&mut key);", why="rand::rng().fill_bytes on the key buffer: the entropy source")],
+         contract="\n    ensures /*@new_key_is_random*/ RANDOM_KEY(r.0),\n"),
+    Unit(name="init_key", file=KC, anchor="pub(crate) fn init_key<S>(", ret_name="r",
+         functions=["commands::key::init_key"],
+         rewrites=[Rw("fn init_key<S>(", "fn init_key(", sig=True, why="repository state generic dropped"),
+                   Rw("repo: &Repository<S>,", "repo: &VRepoK,", sig=True, why="repository -> stub"),
+                   Rw("opts: &KeyOptions,", "opts: &KeyOptionsK,", sig=True, why="key options -> opaque"),
+                   Rw("RusticResult<(Key, KeyId)>", "RusticResult<(Key, KeyIdK)>", sig=True, why="key id -> opaque"),
+                   Rw("add_key_to_repo(repo, opts, pass, key)?", "vadd_key_to_repo(repo, opts, pass, key)?", why="add_key_to_repo (KeyFile::generate is the unit kf_generate; serde + backend write) -> stub")],
+         contract="""
+    ensures
+        // the master key of a newly initialised repository comes from the entropy source (not a constant, not a caller's value)
+        /*@new_repository_gets_a_random_master_key*/ r matches Ok(x) ==> RANDOM_KEY(x.0.0),
+"""),
 ]
 
 M = "backend::decrypt::verif_kani::"
